@@ -1,6 +1,7 @@
 """Two-player extended nonlocal game."""
 
 from collections import defaultdict
+from itertools import product
 
 import cvxpy
 import numpy as np
@@ -103,20 +104,17 @@ class ExtendedNonlocalGame:
         dim_x, dim_y, alice_out, bob_out, alice_in, bob_in = self.pred_mat.shape
 
         max_unent_val = float("-inf")
-        for a_out in range(alice_out):
-            for b_out in range(bob_out):
+        for a_strategy in product(range(alice_out), repeat=alice_in):
+            for b_strategy in product(range(bob_out), repeat=bob_in):
                 p_win = np.zeros([dim_x, dim_y], dtype=complex)
                 for x_in in range(alice_in):
                     for y_in in range(bob_in):
-                        p_win += self.prob_mat[x_in, y_in] * self.pred_mat[:, :, a_out, b_out, x_in, y_in]
-
-                rho = cvxpy.Variable((dim_x, dim_y), hermitian=True)
-
-                objective = cvxpy.Maximize(cvxpy.real(cvxpy.trace(p_win.conj().T @ rho)))
-
-                constraints = [cvxpy.trace(rho) == 1, rho >> 0]
-                problem = cvxpy.Problem(objective, constraints)
-                unent_val = problem.solve()
+                        p_win += (
+                            self.prob_mat[x_in, y_in]
+                            * self.pred_mat[:, :, a_strategy[x_in], b_strategy[y_in], x_in, y_in]
+                        )
+                # max of Re tr(p_win^* rho) over density operators rho = largest eigenvalue of the Hermitian part.
+                unent_val = float(np.linalg.eigvalsh((p_win + p_win.conj().T) / 2)[-1])
                 max_unent_val = max(max_unent_val, unent_val)
         return max_unent_val
 
